@@ -74,8 +74,24 @@ func loopFlagSpec(c *core.Ctx, key string, fn *ssa.Function, anchor ssa.Instruct
 	c.Check(n > 0, key, site, fmt.Sprintf("`%s' = %s && !reload` on every iteration (%d back edge(s)) over atoms [%s]", flag, flag, n, strings.Join(t.Atoms, " ; ")), "no back edge")
 }
 
-// maskedFields lists the fields of the local copy `name` that are overwritten before it is compared.
+// deepEqualCopy finds the local copy that is compared: the Alloc whose address is the first argument of a reflect.DeepEqual call.
+func deepEqualCopy(fn *ssa.Function) *ssa.Alloc {
+	for _, s := range core.CallsNamed(fn, false, "reflect.DeepEqual") {
+		v := s.Common().Args[0]
+		if mi, ok := v.(*ssa.MakeInterface); ok {
+			v = mi.X
+		}
+		if a, ok := v.(*ssa.Alloc); ok {
+			return a
+		}
+	}
+	return nil
+}
+
+// maskedFields lists the fields of the local copy (named `name` on the reviewed tree; identified as the
+// Alloc handed to reflect.DeepEqual) that are overwritten before it is compared.
 func maskedFields(fn *ssa.Function, name string) []string {
+	copyAlloc := deepEqualCopy(fn)
 	var out []string
 	for _, b := range fn.Blocks {
 		for _, in := range b.Instrs {
@@ -95,7 +111,7 @@ func maskedFields(fn *ssa.Function, name string) []string {
 				path = append([]string{f}, path...)
 				v = fa.X
 			}
-			if a, ok := v.(*ssa.Alloc); ok && a.Comment == name && len(path) > 0 {
+			if a, ok := v.(*ssa.Alloc); ok && (a == copyAlloc || copyAlloc == nil && a.Comment == name) && len(path) > 0 {
 				out = append(out, strings.Join(path, "."))
 			}
 		}
@@ -108,7 +124,7 @@ func dynTables(c *core.Ctx) {
 	// ---- checkEndpointPair
 	if fn := c.Fn("haproxy", "dynUpdater.checkEndpointPair"); fn != nil {
 		m := matchers{
-			"equal":    has("reflect.DeepEqual(&oldEPCopy, pair.cur)"),
+			"equal":    has("reflect.DeepEqual(&", ", pair.cur)"),
 			"preserve": has("backend.Cookie.Preserve"),
 			"cookie":   has("pair.old.CookieValue != pair.cur.CookieValue"),
 			"enabled":  has("execEnableEndpoint(d, backend.ID, pair.old, pair.cur)"),
@@ -130,7 +146,7 @@ func dynTables(c *core.Ctx) {
 	// ---- checkHostPair
 	if fn := c.Fn("haproxy", "dynUpdater.checkHostPair"); fn != nil {
 		m := matchers{
-			"equal":    has("reflect.DeepEqual(&oldHostCopy, pair.cur)"),
+			"equal":    has("reflect.DeepEqual(&", ", pair.cur)"),
 			"hasTLS":   has("HasTLS(pair.cur.TLS)"),
 			"hash":     has("TLSHash != pair.cur.TLS.TLSConfig.TLSHash"),
 			"samefile": has("TLSFilename == pair.cur.TLS.TLSConfig.TLSFilename"),
@@ -172,7 +188,7 @@ func dynTables(c *core.Ctx) {
 			region := func(b *ssa.BasicBlock) bool { return !firstMapLoop.Dominates(b) }
 			t := core.ExtractTableRegion(fn, region)
 			m := matchers{
-				"equal":    has("reflect.DeepEqual(&oldBackCopy, pair.cur)"),
+				"equal":    has("reflect.DeepEqual(&", ", pair.cur)"),
 				"grow":     has("builtin:len(pair.old.Endpoints) < builtin:len(pair.cur.Endpoints)"),
 				"resolver": has(`pair.cur.Resolver != ""`),
 				"dyn":      has("pair.cur.Dynamic.DynUpdate"),
@@ -538,9 +554,10 @@ func init() {
 	addRule("C11", &core.Rule{ID: "C11.slot-mapping", Floor: 12, Run: slotMapping, Doc: doc})
 }
 
-// appendsTo lists append calls that extend the source variable `name` (the first argument is, or flows from, a phi of that variable).
-func appendsTo(fn *ssa.Function, name string) []*ssa.Call {
-	var out []*ssa.Call
+// appendsTo lists append calls that extend the source variable `name` (the first argument is, or flows
+// from, a phi of that variable). When the variable was renamed, fallback selects the appends by role.
+func appendsTo(fn *ssa.Function, name string, fallback func(*ssa.Call) bool) []*ssa.Call {
+	var named, byRole []*ssa.Call
 	for _, s := range core.Calls(fn, false) {
 		if core.CalleeName(s.Common()) != "builtin:append" {
 			continue
@@ -559,10 +576,16 @@ func appendsTo(fn *ssa.Function, name string) []*ssa.Call {
 			}
 		}
 		if isVar {
-			out = append(out, call)
+			named = append(named, call)
+		}
+		if fallback != nil && fallback(call) {
+			byRole = append(byRole, call)
 		}
 	}
-	return out
+	if len(named) > 0 {
+		return named
+	}
+	return byRole
 }
 
 func slotMapping(c *core.Ctx) {
@@ -588,7 +611,10 @@ func slotMapping(c *core.Ctx) {
 	c.Check(n == 1, "one endpoint map update", c.Pos(fn.Pos()), "", fmt.Sprintf("%d updates of the old-endpoint map", n))
 	// P2/E1: empty
 	ne := 0
-	for _, a := range appendsTo(fn, "empty") {
+	isEndpointList := func(a *ssa.Call) bool { return strings.HasSuffix(a.Type().String(), "[]*"+core.Module+"/pkg/haproxy/types.Endpoint") }
+	for _, a := range appendsTo(fn, "empty", func(a *ssa.Call) bool {
+		return isEndpointList(a) && (guardedBy(a, enabled, false) || guardedBy(a, func(k string) bool { return strings.HasSuffix(core.StripVersion(k), ".cur == nil)") }, true))
+	}) {
 		ne++
 		switch {
 		case guardedBy(a, enabled, false):
@@ -601,12 +627,12 @@ func slotMapping(c *core.Ctx) {
 		}
 	}
 	c.Check(ne == 2, "free slots come from disabled and vanished endpoints", c.Pos(fn.Pos()), "", fmt.Sprintf("%d appends to `empty` (expected 2)", ne))
-	for _, a := range appendsTo(fn, "targets") {
+	for _, a := range appendsTo(fn, "targets", func(a *ssa.Call) bool { return a.Type().String() == "[]string" }) {
 		c.Check(guardedBy(a, enabled, true), "targets lists the enabled old endpoints", at(c, a), "", "a target is listed without the Enabled guard")
 	}
 	// M: matching loop
 	na := 0
-	for _, a := range appendsTo(fn, "added") {
+	for _, a := range appendsTo(fn, "added", func(a *ssa.Call) bool { return isEndpointList(a) && core.InnermostLoop(fn, a.Block()) != nil && !guardedBy(a, enabled, false) && !guardedBy(a, func(k string) bool { return strings.HasSuffix(core.StripVersion(k), ".cur == nil)") }, true) }) {
 		na++
 		c.Check(guardedBy(a, found, false), "an endpoint with an unknown target is `added`", at(c, a), "", "an endpoint is queued as added although its target was found (or unconditionally)")
 	}
@@ -668,7 +694,7 @@ func slotMapping(c *core.Ctx) {
 			continue
 		}
 		for _, in := range l.Header.Instrs {
-			if ph, ok := in.(*ssa.Phi); ok && ph.Comment == "i" {
+			if ph, ok := in.(*ssa.Phi); ok && ph.Type().String() == "int" {
 				for i, p := range l.Header.Preds {
 					if !l.Blocks[p] && strings.HasPrefix(core.Key(ph.Edges[i]), "builtin:len(") && !strings.Contains(core.Key(ph.Edges[i]), "Endpoints") {
 						okLeft = true
@@ -746,6 +772,7 @@ func alignStructure(c *core.Ctx) {
 	c.Check(n >= 2, "alignSlots padding sites", c.Pos(fn.Pos()), "", fmt.Sprint(n))
 	// free-slot counter
 	okCount := false
+	var counterPhi *ssa.Phi
 	for _, b := range fn.Blocks {
 		for _, in := range b.Instrs {
 			bo, ok := in.(*ssa.BinOp)
@@ -753,9 +780,10 @@ func alignStructure(c *core.Ctx) {
 				continue
 			}
 			ph, isPhi := bo.X.(*ssa.Phi)
-			if !isPhi || ph.Comment != "totalFreeSlots" {
+			if !isPhi || ph.Comment != "totalFreeSlots" && !guardedBy(bo, has("Endpoint).IsEmpty("), true) && !guardedBy(bo, has("Endpoint).IsEmpty("), false) {
 				continue
 			}
+			counterPhi = ph
 			okCount = guardedBy(bo, has("Endpoint).IsEmpty("), true)
 			c.Check(okCount, "free slots are the empty endpoints", at(c, bo), "", "totalFreeSlots is incremented outside the IsEmpty branch: occupied slots are counted as free (no padding) or free ones as occupied")
 		}
@@ -781,7 +809,7 @@ func alignStructure(c *core.Ctx) {
 		fromCount := false
 		for i, p := range l.Header.Preds {
 			if !l.Blocks[p] {
-				if e, isPhi := ph.Edges[i].(*ssa.Phi); isPhi && e.Comment == "totalFreeSlots" {
+				if e, isPhi := ph.Edges[i].(*ssa.Phi); isPhi && (e.Comment == "totalFreeSlots" || counterPhi != nil && phiWeb(e, counterPhi)) {
 					fromCount = true
 				}
 			}
@@ -800,13 +828,38 @@ func alignStructure(c *core.Ctx) {
 			if !ok {
 				continue
 			}
-			switch ph.Comment {
+			role := ph.Comment
+			if role != "newFreeSlots" && role != "blockSize" {
+				// renamed: blockSize is the int phi choosing between 1 and Dynamic.BlockSize; newFreeSlots has an edge that is such a phi
+				isBS := func(p *ssa.Phi) bool {
+					one, bs := false, false
+					for _, e := range p.Edges {
+						if core.Key(e) == "1" {
+							one = true
+						}
+						if strings.HasSuffix(core.Key(e), ".Dynamic.BlockSize") {
+							bs = true
+						}
+					}
+					return one && bs
+				}
+				if isBS(ph) {
+					role = "blockSize"
+				} else {
+					for _, e := range ph.Edges {
+						if ep, ok := e.(*ssa.Phi); ok && isBS(ep) {
+							role = "newFreeSlots"
+						}
+					}
+				}
+			}
+			switch role {
 			case "newFreeSlots":
 				if core.InnermostLoop(fn, b) != nil && core.InnermostLoop(fn, b).Header == b {
 					continue
 				}
 				for i, e := range ph.Edges {
-					if ep, isPhi := e.(*ssa.Phi); isPhi && ep.Comment == "blockSize" {
+					if ep, isPhi := e.(*ssa.Phi); isPhi && (ep.Comment == "blockSize" || strings.Contains(core.Key(ep), ".Dynamic.BlockSize")) {
 						p := b.Preds[i]
 						g := core.ControllingEdges(p)
 						okSpecial := len(g) >= 2 && false
